@@ -66,6 +66,9 @@ func (p *c08Prop) Gen(r *Rng, i int, tier string) interface{} {
 		sub := c08Sub{F: r.Intn(len(c08Filters)), QoS: r.Intn(3), RH: r.Intn(3)}
 		if c.SV == 5 {
 			sub.RAP = r.Bool()
+			if r.Chance(60) {
+				sub.ID = 1 + r.Intn(20)
+			}
 		}
 		c.Subs = []c08Sub{sub}
 		c.PR = true
@@ -230,7 +233,7 @@ func (p *c08Prop) Run(ci interface{}) interface{} {
 			return obs
 		}
 		x := c.Subs[0]
-		if !subscribe(c08Filters[x.F], opsOf(x), 0) {
+		if !subscribe(c08Filters[x.F], opsOf(x), x.ID) {
 			obs.Err = "no suback"
 			return obs
 		}
